@@ -83,8 +83,23 @@ def run_impl(sc):
 
         class Vars:
             pass
+        class Box:
+            """a mutable record that is updated in place (not a list/dict/set): a copy must still be taken when it is measured"""
+            def __init__(self):
+                self.n = 0
+
+            def __len__(self):
+                return self.n
+
+            def append(self, _):
+                self.n += 1
+
+            def pop(self):
+                self.n -= 1
+        import collections
         vs = Vars()
-        vs.v0, vs.v1, vs.lst = 0, 0, []
+        # variable 2 is mutated in place; which kind of mutable value it is does not matter to the property (chosen from the seed)
+        vs.v0, vs.v1, vs.lst = 0, 0, [list, collections.deque, bytearray, Box][sc['seed'] % 4]()
         probes = [AttributeProbe('v0', vs), AttributeProbe('v1', vs), AttributeProbe('lst', vs)][:sc['nprobes']]
         inf = float('inf')
         P = PeriodicSensor(sc['interval'] / TICK, probes, 'periodic', inf if sc['cap'] is None else sc['cap'])
@@ -94,7 +109,7 @@ def run_impl(sc):
         sensors = [P, O]
 
         def val(x):
-            if isinstance(x, list):
+            if isinstance(x, (list, collections.deque, bytearray, Box)):
                 return len(x)
             return to_ticks(x) if isinstance(x, float) else int(x)
 
@@ -248,6 +263,16 @@ def monitor_c19(sc, obs):
                 i, sc['cap'], [len(s) for s in o['pser']], len(o['ptime'])))
         if sc['ocap'] is not None and any(len(s) > sc['ocap'] for s in o['oser']):
             bad('C19/over-capacity-output', 'op %d: output sensor series longer than data_capacity=%d' % (i, sc['ocap']))
+        # a measurement stores a copy of the probed value at that moment: an entry that is still in a series keeps its value
+        # (entries are identified by their time stamp; series and time series aligned)
+        if i > 0 and len(lens) == 1:
+            po = obs[i - 1]
+            if len({len(s) for s in po['pser']} | {len(po['ptime'])}) == 1:
+                for j, (olds, news) in enumerate(zip(po['pser'], o['pser'])):
+                    was = dict(zip(po['ptime'], olds))
+                    for t, x in zip(o['ptime'], news):
+                        if t in was and was[t] != x and not v:
+                            bad('C19/stored-value-changed', 'op %d %s: the measurement of probe %d taken at %d was %d and now reads %d' % (i, o['op'], j, t, was[t], x))
     if t0 is None:
         return v
     last = obs[-1]
